@@ -1359,6 +1359,9 @@ class Engine:
             except z3.Z3Exception as e:
                 kind = "engine-gap"
                 self.gaps["z3: " + str(e)[:120]] = self.gaps.get("z3: " + str(e)[:120], 0) + 1
+                if self.trace_ends:
+                    import traceback
+                    traceback.print_exc()
             except (TypeError, AttributeError, IndexError, KeyError, ValueError, AssertionError, OverflowError, ZeroDivisionError) as e:
                 import traceback
                 kind = "engine-gap"
@@ -1920,6 +1923,83 @@ class Engine:
             elif op in ("fptoui", "fptosi"):
                 return int(x) & mask(I.ty[1])
             return f32round(r) if single else r
+        return self.fop_bits(st, op, I, vals)
+
+    def fop_bits(self, st, op, I, vals):
+        """IEEE-exact float operation on symbolic bit patterns (z3 FP theory, round-to-nearest-even); results are
+        ("fbits", bv) again, comparisons are z3 Bools.  NaN payloads are z3's canonical ones."""
+        F32, F64 = z3.Float32(), z3.Float64()
+        RNE = z3.RNE()
+
+        def sort_of_bits(w):
+            return F32 if w == 32 else F64
+
+        def to_fp(v, srt):
+            if isinstance(v, tuple) and v[0] == "fbits":
+                b = v[1]
+                if not is_sym(b):
+                    b = z3.BitVecVal(b, 32 if srt == F32 else 64)
+                return z3.fpBVToFP(b, srt)
+            if isinstance(v, (int, float)):
+                x = float(v)
+                if x != x:
+                    return z3.fpNaN(srt)
+                if x in (math.inf, -math.inf):
+                    return z3.fpInfinity(srt, x < 0)
+                return z3.FPVal(x, srt)
+            raise PathEnd("unsupported", "symbolic float op %s on %r" % (op, type(v)))
+
+        def bits(fp):
+            return ("fbits", z3.fpToIEEEBV(fp))
+        if op in ("uitofp", "sitofp"):
+            x = vals[0]
+            srt = F32 if I.ty[0] == "float" else F64
+            if z3.is_bool(x):
+                x = z3.If(x, z3.BitVecVal(1, 8), z3.BitVecVal(0, 8))
+            if op == "uitofp":
+                return bits(z3.fpToFPUnsigned(RNE, x, srt))
+            return bits(z3.fpToFP(RNE, x, srt))
+        # operand sort: from the first symbolic operand
+        w = None
+        for v in vals:
+            if isinstance(v, tuple) and v[0] == "fbits" and is_sym(v[1]):
+                w = v[1].size()
+                break
+        if w is None:
+            raise PathEnd("unsupported", "symbolic float op " + op)
+        srt = sort_of_bits(w)
+        a = to_fp(vals[0], srt)
+        if op in ("fptoui", "fptosi"):
+            wo = I.ty[1]
+            return z3.fpToUBV(z3.RTZ(), a, z3.BitVecSort(wo)) if op == "fptoui" else z3.fpToSBV(z3.RTZ(), a, z3.BitVecSort(wo))
+        if op in ("fpext", "fptrunc"):
+            return bits(z3.fpFPToFP(RNE, a, F32 if I.ty[0] == "float" else F64))
+        if op == "fneg":
+            return bits(z3.fpNeg(a))
+        b = to_fp(vals[1], srt)
+        if op == "fadd":
+            return bits(z3.fpAdd(RNE, a, b))
+        if op == "fsub":
+            return bits(z3.fpSub(RNE, a, b))
+        if op == "fmul":
+            return bits(z3.fpMul(RNE, a, b))
+        if op == "fdiv":
+            return bits(z3.fpDiv(RNE, a, b))
+        if op == "fcmp":
+            p = I.x
+            unord = z3.Or(z3.fpIsNaN(a), z3.fpIsNaN(b))
+            base = {"eq": z3.fpEQ(a, b), "gt": z3.fpGT(a, b), "ge": z3.fpGEQ(a, b), "lt": z3.fpLT(a, b), "le": z3.fpLEQ(a, b), "ne": z3.Not(z3.fpEQ(a, b))}
+            if p == "ord":
+                return z3.Not(unord)
+            if p == "uno":
+                return unord
+            if p in ("true",):
+                return 1
+            if p in ("false",):
+                return 0
+            if p[0] == "o":
+                return z3.And(z3.Not(unord), base[p[1:]])
+            return z3.Or(unord, base[p[1:]])
         raise PathEnd("unsupported", "symbolic float op " + op)
 
     # ---------- calls
@@ -2059,9 +2139,21 @@ def m_umul_ov(e, st, args, I):
     return [A * B, z3.Not(z3.BVMulNoOverflow(A, B, False))]
 
 
-def m_f1(fn):
+def m_f1(fn, name=None):
     def f(e, st, args, I):
         x = args[0]
+        if isinstance(x, tuple) and x[0] == "fbits" and is_sym(x[1]) and name:
+            b = x[1]
+            srt = z3.Float32() if b.size() == 32 else z3.Float64()
+            if name == "fabs":
+                return ("fbits", b & z3.BitVecVal((1 << (b.size() - 1)) - 1, b.size()))
+            fp = z3.fpBVToFP(b, srt)
+            if name == "sqrt":
+                r = z3.fpSqrt(z3.RNE(), fp)
+            else:
+                rm = {"floor": z3.RTN(), "ceil": z3.RTP(), "round": z3.RNA(), "trunc": z3.RTZ()}[name]
+                r = z3.fpRoundToIntegral(rm, fp)
+            return ("fbits", z3.fpToIEEEBV(r))
         if isinstance(x, tuple) or is_sym(x):
             raise PathEnd("unsupported", "symbolic float intrinsic")
         r = fn(x)
@@ -2101,8 +2193,8 @@ def m_abs(e, st, args, I):
 INTRINSICS = {
     "llvm.abs": m_abs,
     "llvm.ctlz": m_ctlz, "llvm.cttz": m_cttz,
-    "llvm.fabs": m_f1(abs), "llvm.sqrt": m_f1(lambda x: math.sqrt(x) if x >= 0 else math.nan),
-    "llvm.floor": m_f1(math.floor), "llvm.ceil": m_f1(math.ceil), "llvm.round": m_f1(_round_half_away), "llvm.trunc": m_f1(math.trunc),
+    "llvm.fabs": m_f1(abs, "fabs"), "llvm.sqrt": m_f1(lambda x: math.sqrt(x) if x >= 0 else math.nan, "sqrt"),
+    "llvm.floor": m_f1(math.floor, "floor"), "llvm.ceil": m_f1(math.ceil, "ceil"), "llvm.round": m_f1(_round_half_away, "round"), "llvm.trunc": m_f1(math.trunc, "trunc"),
     "llvm.memcpy": m_memcpy, "llvm.memmove": m_memcpy, "llvm.memset": m_memset,
     "llvm.lifetime": m_nop, "llvm.dbg": m_nop, "llvm.experimental.noalias": m_nop,
     "llvm.umax": m_minmax("umax"), "llvm.umin": m_minmax("umin"), "llvm.smax": m_minmax("smax"), "llvm.smin": m_minmax("smin"),
